@@ -869,7 +869,7 @@ def core_usage(case, dens):
         if o["k"] == "t" and len(o["shape"]) == 0:
             return True
         _, inplace, _ = bin_ref(case["op"], {})
-        wrapped = not inplace and case["op"] not in ("__and__", "__rand__")
+        wrapped = not inplace and (AND_WRAPPED or case["op"] not in ("__and__", "__rand__"))
         kinds_ok = skind != "lazy"
         if o["k"] == "t":
             # a batch-shaped / broadcastable tensor is an operand kind the property names (out-of-place, non-lazy)
@@ -1524,6 +1524,10 @@ def tree_sx(dense, base):
     return enc(root)
 
 
+# state of /repo the model is switched to (fixes/C09/*.diff applied); flip together with the Coq switches
+AND_WRAPPED = True          # D41: __and__/__rand__ go through _maybe_broadcast_other
+LOCK_CLOSES_RESULT = False  # D48: before the patch a locked self made `result.update(items)` raise
+
 DUNDER_MODEL = ["__add__", "__radd__", "__iadd__", "__sub__", "__rsub__", "__isub__", "__mul__", "__rmul__", "__imul__",
                 "__truediv__", "__rtruediv__", "__itruediv__", "__pow__", "__rpow__", "__ipow__", "__and__", "__rand__",
                 "__or__", "__ror__", "__xor__", "__rxor__"]
@@ -1550,8 +1554,8 @@ def model_lines(case):
     s = case["self"]
     dself = {p: None for p in traversal([tuple(e[0]) for e in s["entries"]])}
     if fam == "reduce":
-        grp = ("tuple" if op in REDUCTIONS_TUPLE else "single" if op in REDUCTIONS_INT[1:] else
-               "cum" if op in REDUCTIONS_CUM else "prod")
+        grp = ("tuple" if op in REDUCTIONS_TUPLE else "aminmax" if op in ("amin", "amax") else
+               "single" if op in ("min", "max") else "cum" if op in REDUCTIONS_CUM else "prod")
         names = s.get("names") if s.get("kind", "td") != "lazy" else None   # to_tensordict() of a lazy stack: no names
         dim = case["dim"]
         d = (Sym("nodefault") if dim == "nodefault" else Sym("none") if dim is None else Sym("feature")
@@ -1563,7 +1567,7 @@ def model_lines(case):
     odens = [{p: None for p in traversal([tuple(e[0]) for e in o["entries"]])} if o["k"] in ("td", "dict") else None
              for o in case["args"]]
     _, inplace, _ = bin_ref(op, {}) if fam == "binary" else (None, op.endswith("_") and not op.endswith("__"), None)
-    wrapped = not inplace and op not in ("__and__", "__rand__")
+    wrapped = not inplace and (AND_WRAPPED or op not in ("__and__", "__rand__"))
     if wrapped:
         lines.append(sx([Sym("bcast"), list(s["bs"]), [_okind_sx(o) for o in case["args"]]]))
     if fam == "binary" and op in DUNDER_MODEL:
@@ -1582,9 +1586,8 @@ def model_lines(case):
                     Sym("swallow") if op in ("clamp_max", "clamp_min") else Sym("foreach"))
             # the result object refuses a key only `other` has: locked result (any new key) / tensorclass (new field)
             extra = [p for p in (odens[0] or {}) if p not in dself]
-            closed = (bool(s.get("locked")) and s.get("kind", "td") != "tc" and bool(extra)) or (
-                s.get("kind", "td") == "tc" and any(p[0] not in {q[0] for q in dself} for p in extra)) or (
-                s.get("kind", "td") == "tc" and bool(s.get("locked")) and bool(extra))
+            closed = (LOCK_CLOSES_RESULT and bool(s.get("locked")) and bool(extra)) or (
+                s.get("kind", "td") == "tc" and any(p[0] not in {q[0] for q in dself} for p in extra))
             lines.append(sx([Sym("binary"), famy, closed, dd, _items_sx(dself, 0), _operand_sx(o, odens[0], 100)]))
     else:
         if op == "clamp" and all(o["k"] == "td" for o in case["args"]):
@@ -1608,7 +1611,7 @@ def eval_model(case, answers):
         return eval_model_reduce(case, answers[0], dself)
     dens = [build_operand(o)[1] for o in case["args"]]
     _, inplace, _ = bin_ref(op, {}) if fam == "binary" else (None, op.endswith("_") and not op.endswith("__"), None)
-    wrapped = not inplace and op not in ("__and__", "__rand__")
+    wrapped = not inplace and (AND_WRAPPED or op not in ("__and__", "__rand__"))
     answers = list(answers)
     B, perleaf = bs, False
     if wrapped:
